@@ -291,6 +291,11 @@ where
             )
             .is_ok() // PJG: convert to bool for consistency with qdldl.   Should really return Result here and elsewhere
     }
+
+    #[cfg(clarabel_verif)]
+    fn verif_internal_copy(&self) -> Option<(Vec<T>, Vec<usize>)> {
+        Some((self.perm_kkt.nzval.clone(), self.perm_map.clone()))
+    }
 }
 
 // ---------------------------------------------------------------------
